@@ -24,6 +24,7 @@
 uint8_t IN_tape[VF_TAPE_MAX];
 uint64_t IN_len;            /* input: file length, <= VF_TAPE_MAX */
 uint64_t IN_pos0;           /* input: initial read position */
+uint8_t IN_openfail;        /* input: may fopen fail? (0 = never) */
 FILE *G_file;               /* the open input handle */
 FILE *W_file;               /* the open output handle */
 uint64_t GK;                /* ghost index: arbitrary, never assigned (stands for "for all k") */
@@ -32,7 +33,6 @@ uint64_t GK2;
 #ifdef VF_CBMC
 uint64_t G_len, G_pos;
 int G_open;                 /* number of open input handles (0 or 1) */
-uint8_t IN_openfail;        /* input: may fopen fail? (0 = never) */
 uint8_t W_tape[VF_WTAPE_MAX];
 uint64_t W_pos;
 bool G_eof;
@@ -60,7 +60,14 @@ static inline void vf_tape_close(void) { free(G_file); }
 static inline void vf_wtape_close(void) { free(W_file); }
 #else
 static uint8_t vf_wbuf[VF_WTAPE_MAX + 64];
-static inline uint64_t vf_tape_pos(void) { return (uint64_t)ftell(G_file); }
+static char vf_tape_path[64];
+static int vf_fd_count(void) {
+    int n = 0; char p[64];
+    for (int fd = 0; fd < 256; fd++) { snprintf(p, sizeof p, "/proc/self/fd/%d", fd); if (access(p, F_OK) == 0) n++; }
+    return n;
+}
+static int vf_fd0;
+static inline uint64_t vf_tape_pos(void) { return G_file ? (uint64_t)ftell(G_file) : 0; }
 static inline uint64_t vf_wtape_pos(void) { fflush(W_file); return (uint64_t)ftell(W_file); }
 static inline uint8_t *vf_wtape_snapshot(void) {
     long p = ftell(W_file); fflush(W_file);
@@ -76,18 +83,13 @@ static inline uint8_t *vf_wtape_snapshot(void) {
 #define W_tape vf_wtape_snapshot()
 static inline void vf_tape_open(void) {
     VF_ASSUME(IN_len <= VF_TAPE_MAX && IN_pos0 <= IN_len);
+    vf_fd0 = vf_fd_count();
     G_file = tmpfile();
     if (IN_len) fwrite(IN_tape, 1, IN_len, G_file);
     fflush(G_file); fseek(G_file, (long)IN_pos0, SEEK_SET);
 }
 static inline void vf_wtape_open(void) { W_file = tmpfile(); }
-static char vf_tape_path[64];
-static int vf_fd_count(void) {
-    int n = 0; char p[64];
-    for (int fd = 0; fd < 256; fd++) { snprintf(p, sizeof p, "/proc/self/fd/%d", fd); if (access(p, F_OK) == 0) n++; }
-    return n;
-}
-static int vf_fd0;
+
 static inline const char *vf_tape_file(void) {
     VF_ASSUME(IN_len <= VF_TAPE_MAX);
     snprintf(vf_tape_path, sizeof vf_tape_path, "/tmp/vf_tape_%d.bin", (int)getpid());
